@@ -154,8 +154,14 @@ theorem gen_centres (w radius q r D gap : K) (hw : w ≠ 0) :
     Generated.C18.center90 w radius q r = center90 w radius q r ∧
     Generated.C18.center0 w radius q r = center0 w radius q r ∧
     Generated.C18.circumradius w D gap = circumradius w D ∧ Generated.C18.pitch w D gap = pitch w D gap := by
-  simp only [Generated.C18.center90, Generated.C18.center0, Generated.C18.circumradius, Generated.C18.pitch,
-    center90, center0, circumradius, pitch, and_self]
+  refine ⟨?_, ?_, ?_, ?_⟩ <;> first
+    | rfl
+    | (simp only [Generated.C18.center90, Generated.C18.center0, Generated.C18.circumradius, Generated.C18.pitch,
+        center90, center0, circumradius, pitch]; done)
+    | (simp only [Generated.C18.center90, Generated.C18.center0, center90, center0, Prod.mk.injEq]
+       constructor <;> first | trivial | rfl | (field_simp; done) | (field_simp; ring))
+    | (simp only [Generated.C18.circumradius, Generated.C18.pitch, circumradius, pitch]
+       first | (field_simp; done) | (field_simp; ring))
 
 /-- the hexagon's apothem is half the requested flat-to-flat diameter, and the clear distance between the facing
 edges of two neighbouring hexagons (`√3·pitch − 2·apothem`) is exactly the requested separation -/
